@@ -1678,3 +1678,119 @@ V("C09", "resolve_accessor_clears_method_on_operand", "fire", "R09.k", (R, """  
         new._method = None
         return new._clone(operation)""", """        self._method = None
         return self._clone(operation)"""))
+
+# ======================================================================= C06
+_TAB = """                if (not any(dep[0] == w[0] for w in _watch+_inherited)
+                    and dinfo.get('watch')):
+                    _inherited.append(dep)
+"""
+V("C06", "inherited_entries_not_deduplicated", "fire", "R06.a", (Z, _TAB, """                if dinfo.get('watch'):
+                    _inherited.append(dep)
+"""))
+V("C06", "dedup_only_against_own_methods", "fire", "R06.a", (Z, _TAB, """                if (not any(dep[0] == w[0] for w in _watch)
+                    and dinfo.get('watch')):
+                    _inherited.append(dep)
+"""))
+V("C06", "undecorated_override_keeps_registration", "fire", "R06.a", (Z, _TAB, """                if not any(dep[0] == w[0] for w in _watch+_inherited):
+                    _inherited.append(dep)
+"""))
+V("C06", "farthest_ancestor_entry_wins", "fire", "R06.a", (Z, "        for cls in classlist(mcs)[:-1][::-1]:\n            if not hasattr(cls, '_param__parameters'):", "        for cls in classlist(mcs)[:-1]:\n            if not hasattr(cls, '_param__parameters'):"))
+V("C06", "own_nonwatching_methods_registered", "fire", "R06.a", (Z, """            if watch:
+                _watch.append((name, watch == 'queued', on_init, deps, dynamic_deps))""", """            if dinfo is not None:
+                _watch.append((name, watch == 'queued', on_init, deps, dynamic_deps))"""))
+V("C06", "constant_groups_ignore_what", "fire", "R06.b", (Z, "                    constant_grouped[(id(dep.inst), id(dep.cls), dep.what)].append((None, dep))", "                    constant_grouped[(id(dep.inst), id(dep.cls))].append((None, dep))"))
+V("C06", "one_watcher_per_dependency", "fire", "R06.b", (Z, """                for group in constant_grouped.values():
+                    self_._watch_group(obj, method, queued, group)""", """                for group in constant_grouped.values():
+                    for member in group:
+                        self_._watch_group(obj, method, queued, [member])"""))
+V("C06", "on_init_called_per_entry", "fire", "R06.b", (Z, """                if on_init and m not in init_methods:
+                    init_methods.append(m)""", """                if on_init and m not in init_methods:
+                    init_methods.append(m)
+                    m()"""))
+V("C06", "construction_does_not_install", "fire", "R06.c", (Z, "        self.param._update_deps(init=True)", "        self.param._update_deps()"))
+V("C06", "benign_dedup_order_swapped", "benign", None, (Z, _TAB, """                if (dinfo.get('watch')
+                        and not any(dep[0] == w[0] for w in _inherited+_watch)):
+                    _inherited.append(dep)
+"""))
+V("C06", "benign_dedup_by_name_list", "benign", None, (Z, _TAB, """                taken = [w[0] for w in _watch] + [w[0] for w in _inherited]
+                if dep[0] not in taken and dinfo.get('watch'):
+                    _inherited.append(dep)
+"""))
+V("C06", "benign_on_init_collected_after_loop", "benign", None, (Z, """                m = getattr(self_.self, method)
+                if on_init and m not in init_methods:
+                    init_methods.append(m)""", """                if on_init:
+                    m = getattr(self_.self, method)
+                    if m not in init_methods:
+                        init_methods.append(m)"""))
+
+# ======================================================================= C07
+_WG = """        subparams, callback, what = {}, None, param_dep.what
+        for dynamic_dep, g in group:
+            if dynamic_dep is None:
+                subps, cb, dep_what = None, None, g.what
+            else:
+                subps, cb, dep_what = self_._resolve_dynamic_deps(
+                    obj, dynamic_dep, g, attribute)
+            callback = callback or cb
+            if subps is None:
+                subparams[g.name] = None
+            elif subparams.get(g.name, []) is not None:
+                subparams.setdefault(g.name, []).extend((sp, dep_what) for sp in subps)
+        if all(subps is None for subps in subparams.values()):
+            subparams = None
+"""
+V("C07", "filter_from_first_dependency_only", "fire", "R07.a", (Z, _WG, """        dynamic_dep = group[0][0]
+        if dynamic_dep is None:
+            subparams, callback, what = None, None, param_dep.what
+        else:
+            subparams, callback, what = self_._resolve_dynamic_deps(
+                obj, dynamic_dep, param_dep, attribute)
+"""))
+V("C07", "callback_of_last_dependency", "fire", "R07.a", (Z, "            callback = callback or cb\n", "            callback = cb\n"))
+V("C07", "leaf_dependency_does_not_veto_skip", "fire", "R07.a", (Z, """            if subps is None:
+                subparams[g.name] = None
+            elif subparams.get(g.name, []) is not None:""", """            if subps is None:
+                subparams.setdefault(g.name, [])
+            elif subparams.get(g.name, []) is not None:"""))
+V("C07", "skip_event_ignores_unfiltered_events", "fire", "R07.a", (Z, """            subparams = changed.get(e.name)
+            if subparams is None:
+                return False""", """            subparams = changed.get(e.name)
+            if subparams is None:
+                continue"""))
+V("C07", "skip_event_compares_values_for_slots", "fire", "R07.a", (Z, """        for p, what in subparams:
+            if what == 'value':""", """        for p, what in subparams:
+            if what in ('value', 'bounds'):"""))
+V("C07", "no_callback_below_first_level", "fire", "R07.a", (Z, "        if depth > 0:\n            def callback(*events):", "        if depth > 1:\n            def callback(*events):"))
+V("C07", "param_spec_compares_nothing", "fire", "R07.a", (Z, "            subparams = [sp for sp in list(subobjs[-1].param)]", "            subparams = []"))
+V("C07", "old_watchers_unwatched_on_parent", "fire", "R07.b", (Z, "                    (w.cls if w.inst is None else w.inst).param.unwatch(w)", "                    obj.param.unwatch(w)"))
+V("C07", "old_watchers_stay_recorded", "fire", "R07.b", (Z, "                for w in obj._param__private.dynamic_watchers.pop(method, []):", "                for w in obj._param__private.dynamic_watchers.get(method, []):"))
+V("C07", "new_watchers_not_recorded", "fire", "R07.b", (Z, """                watcher = self_._watch_group(obj, method, queued, group, attribute)
+                obj._param__private.dynamic_watchers[method].append(watcher)""", """                watcher = self_._watch_group(obj, method, queued, group, attribute)
+                if init:
+                    obj._param__private.dynamic_watchers[method].append(watcher)"""))
+V("C07", "setter_does_not_rebind", "fire", "R07.c", (Z, """                return
+            obj.param._update_deps(name)
+""", """                return
+"""))
+V("C07", "benign_params_collected_in_same_loop", "benign", None, (Z, """        params = []
+        for _, g in group:
+            if g.name not in params:
+                params.append(g.name)
+
+        # Every dependency of the group contributes the sub-parameters
+        # to compare when the parameter it watches is replaced
+        subparams, callback, what = {}, None, param_dep.what
+        for dynamic_dep, g in group:
+""", """        params = []
+        subparams, callback, what = {}, None, param_dep.what
+        for dynamic_dep, g in group:
+            if g.name not in params:
+                params.append(g.name)
+"""))
+V("C07", "benign_skip_event_membership_test", "benign", None, (Z, """            subparams = changed.get(e.name)
+            if subparams is None:
+                return False""", """            subparams = changed[e.name] if e.name in changed else None
+            if subparams is None:
+                return False"""))
+V("C07", "benign_path_split_strips_slot_first", "benign", None, (Z, "        for subpath in dynamic_dep.spec.split('.')[:-1]:", "        for subpath in dynamic_dep.spec.split(':')[0].split('.')[:-1]:"))
+V("C07", "benign_callback_first_not_none", "benign", None, (Z, "            callback = callback or cb\n", "            if callback is None:\n                callback = cb\n"))
